@@ -95,6 +95,13 @@ CHECKS["C13"] = {
   "text": "Proved on the real bodies for 1-2 wells/tips with symbolic ids, tips (ints and Tip members), scalar and per-tip volumes, grid/site/arm, liquid class: the returned command equals 'B;Aspirate|Dispense(mask,\"lc\",slot1..slot8,0,0,0,0,grid,site-1,1,\"sel\",0,arm);' with mask = OR of the tips, slot t = the 2-decimal volume paired with tip t (0 otherwise), and the selection string computed (C12 contract) from exactly the given wells; ValueError iff grid/site/arm/volume/liquid class are out of range, tips are not distinct ascending tips 1-8, wells are not strictly ascending within one column; InvalidOperationError iff a volume exceeds max_volume. " + _C13,
   "note": "Mixed level: require_single_column_selection enters through an assumed summary (validated by the bounded monitor); evo_get_selection through its C12 contract; EvoWorklist.evo_* and evo_wash are covered by the bounded monitor. Lists longer than 2 are bounded. bool/float grid, site, arm are outside the universe.",
 }
+_C16 = _BOUNDED_ONLY.pop("C16")
+CHECKS["C16"] = {
+  "category": "other",
+  "technique": "relational (product-program) reasoning by syntactic alignment of the two real transfer bodies + hierarchy/frame obligations over the ast + contracts of the device-specific numbering (C08) and of the refusing base methods; bounded differential monitor",
+  "text": "Relational obligations over the real source: EvoWorklist.transfer and FluentWorklist.transfer are statement-by-statement the same program except for the body of the deprecated wash_scheme=None branch (excluded by the property) and assert-vs-raise for incompatible lengths (complementary conditions); both resolve their helpers to the same definitions; neither class overrides a shared method; FluentWorklist.__init__ forwards unchanged; the device-specific numbering is used only for the position argument of A/D records and the destination range of R records, where the two get_well_position contracts (C08) differ exactly on troughs; BaseWorklist._get_well_position / transfer are proved to always raise TypeError / CompatibilityError with nothing appended. " + _C16,
+  "note": "Mixed: the relational part is syntactic (equal programs over equal callees are equivalent: a sufficient condition - a semantics-preserving edit of only one copy would be reported and then has to be re-aligned); the end-to-end agreement on operation programs is explored by the bounded differential monitor. Known finding: Fluent distribute source range (C01).",
+}
 for _pid, _txt in _BOUNDED_ONLY.items():
     CHECKS[_pid] = {
         "category": "exploration",
